@@ -62,6 +62,8 @@ def families(tier, which=("any", "kwarg", "digits", "octal", "words", "long")):
             for n in lens:
                 if q and kw not in ("-uid", "-links", "-threads", "-maxdepth") and n not in (10, 20):
                     continue
+                if not q and n > 21 and kw not in ("-uid", "-links"):
+                    continue             # 22..40 digits cost minutes per family: one 32-bit and one 64-bit keyword
                 ds, asm = zip(*[digit() for _ in range(n)])
                 yield ("%s %dd" % (kw, n), [kw + " "] + list(ds), list(asm))
         for kw, units in UNIT_KW[:3] if q else UNIT_KW:
